@@ -282,9 +282,13 @@ def run_arith(rc, pre=None):
         elif op not in UFUNCS:
             form = "op"
     shape = np.broadcast_shapes(*[o.shape for o in ops])
-    if form in ("iop", "outself") and (ord_ != "po" or tuple(shape) != tuple(p.shape)):
-        form = "out"                      # an in-place operation cannot grow its left operand
-    if form == "outdiv" and (ord_ != "po" or o.kind not in ("phase", "phasearr") or tuple(shape) != tuple(o.shape)):
+    # "outself": out= the phase operand itself, "outdiv": out= the OTHER operand when that is a
+    # Phase too - in whichever position they stand (first or second input of the ufunc)
+    if form == "iop" and (ord_ != "po" or tuple(shape) != tuple(p.shape)):
+        form = "outself"
+    if form == "outself" and tuple(shape) != tuple(p.shape):
+        form = "out"                      # an in-place operation cannot grow its operand
+    if form == "outdiv" and (len(ops) < 2 or o.kind not in ("phase", "phasearr") or tuple(shape) != tuple(o.shape)):
         form = "out"
     if form == "iop":
         call = (lambda: IOPS[op](p.obj, o.obj))            # returns the (same) left operand
@@ -301,14 +305,16 @@ def run_arith(rc, pre=None):
             qt = np.full(shape, -77.0)
             if rc.get("qq"):
                 qt = qt * u.dimensionless_unscaled
+            if op == "divmod" and rc.get("qnone"):
+                qt = None                                  # out=(None, target): the quotient is allocated
 
         def call():
             if op == "floordiv":
                 np.floor_divide(*args, out=qt)
                 return qt
             if op == "divmod":
-                np.divmod(*args, out=(qt, target))
-                return qt, target
+                got = np.divmod(*args, out=(qt, target))
+                return (got[0] if qt is None else qt), target
             uf = np.fabs if (op == "abs" and rc.get("np") == "np.fabs") else (DIVUFUNCS.get(op) or UFUNCS[op])
             uf(*args, out=target)
             return target
@@ -318,8 +324,8 @@ def run_arith(rc, pre=None):
     except RealCodeRaised as e:  # the event records the refusal; TLC decides whether it is allowed
         exc = e.name
     # operands the call must leave alone (everything but the target of an in-place form)
-    tgt = {"iop": 0, "outself": 0, "outdiv": 1}.get(form) if ord_ == "po" else None
-    modified = ["lr"[k] for k, x in enumerate(ops) if k != tgt and x.modified()]
+    tobj = p.obj if form in ("iop", "outself") else o.obj if form == "outdiv" else None
+    modified = ["lr"[k] for k, x in enumerate(ops) if x.obj is not tobj and x.modified()]
     evs = []
     divlike = op in ("floordiv", "mod", "divmod")
     if exc is None:
@@ -371,6 +377,8 @@ def run_seq(rc):
             p = phase_operand(p.obj)
         elif form == "outdiv":
             o = phase_operand(o.obj, o.kind)
+        if o.obj is p.obj:
+            o = p
     return evs
 
 
@@ -525,9 +533,35 @@ def red_events(p, fn, form, axis, axpos=False):
     return evs
 
 
+def relayout(p, layout):
+    """the same kind of object in another memory layout, obtained by public views only:
+    C (as built), T (transposed view), swap (first and last axis swapped), strided
+    (every other element of the last axis), rev (first axis reversed), F (Fortran-ordered copy)"""
+    if not layout or layout == "C" or p.ndim == 0:
+        return p
+    if layout == "T":
+        return real(lambda: p.T)
+    if layout == "swap":
+        return real(lambda: p.swapaxes(0, -1))
+    if layout == "strided":
+        return real(lambda: p[..., ::2])
+    if layout == "rev":
+        return real(lambda: p[::-1])
+    if layout == "F":
+        return real(lambda: p.copy(order="F"))
+    raise ValueError("unknown layout " + layout)
+
+
 def run_red(rc):
-    """rc = {"fn", "form": method|numpy, "ph": array phase, "axis": None|int, "axpos": bool}"""
-    return red_events(make_phase(rc["ph"]), rc["fn"], rc["form"], rc.get("axis"), bool(rc.get("axpos")))
+    """rc = {"fn", "form": method|numpy, "ph": array phase, "axis": None|int, "axpos": bool, "layout"}"""
+    p = relayout(make_phase(rc["ph"]), rc.get("layout"))
+    axis = rc.get("axis")
+    if axis is not None and not (-p.ndim <= axis < p.ndim):
+        axis = -1
+    evs = red_events(p, rc["fn"], rc["form"], axis, bool(rc.get("axpos")))
+    for ev in evs:
+        ev["layout"] = rc.get("layout") or "C"
+    return evs
 
 
 def _view_of(p, vw):
@@ -559,7 +593,7 @@ def run_hist(rc):
       {"do": "cmp", "op", "form", "ot"}                      comparison with another operand, judged likewise
       {"do": "upd", "view": {...}, "op": add|sub, "ot": operand}   in-place update through a view of p
     The events of all red / cmp steps are returned in order."""
-    p = make_phase(rc["ph"])
+    p = relayout(make_phase(rc["ph"]), rc.get("layout"))
     evs = []
     for st in rc["steps"]:
         do = st["do"]
@@ -572,13 +606,18 @@ def run_hist(rc):
         elif do == "upd":
             view = _view_of(p, st["view"])
             if np.size(view) and not np.shares_memory(view.view(np.ndarray), p.view(np.ndarray)):
-                raise AssertionError("harness: %r is not a view" % (st["view"],))
+                # reshape / ravel of a non-contiguous layout is a copy: update through a basic slice instead
+                view = real(lambda: p[..., :1])
+                if not np.shares_memory(view.view(np.ndarray), p.view(np.ndarray)):
+                    raise AssertionError("harness: %r is not a view" % (st["view"],))
             o = make_other(st["ot"])
             real(IOPS[st["op"]], view, o.obj)
         else:
             raise ValueError("unknown step " + do)
     for ev in evs:
         ev["hist"] = True
+        if ev["ev"] == "red":
+            ev["layout"] = rc.get("layout") or "C"
     return evs
 
 
@@ -736,7 +775,9 @@ def violation_key(ev, clauses):
         return "cmp:%s[%s%s]:%s:%s:%s" % (ev["op"], _flag(ev["l"]), _flag(ev["r"]), ev["other"],
                                           ev["ord"] + ("" if form == "operator" else "/" + form), c)
     if k == "red":
-        return "%s:%s%s:%s" % (ev["fn"], ev["form"], "/after-in-place-update-through-a-view" if ev.get("hist") else "", c)
+        lay = ev.get("layout", "C")
+        return "%s:%s%s%s:%s" % (ev["fn"], ev["form"], "" if lay == "C" else "/layout=" + lay,
+                                 "/after-in-place-update-through-a-view" if ev.get("hist") else "", c)
     if k == "from_string":
         # coarse class (imaginary?, decimal point present?); the exact spelling class is in the description
         cl = string_class(bytes(ev["s"]).decode()).split("+")
@@ -765,8 +806,8 @@ def describe(ev, clauses):
         s = "%s %s %s [%s operand: %s%s] -> %s" % (val(ev["l"]), ev["op"], val(ev["r"]) if "r" in ev else "",
                                                     ev["ord"], ev["other"],
                                                     {"iop": ", in-place operator", "out": ", out= separate target",
-                                                     "outself": ", out= the left operand itself",
-                                                     "outdiv": ", out= the Phase divisor"}.get(ev.get("form"), ""), rs)
+                                                     "outself": ", out= the phase operand itself",
+                                                     "outdiv": ", out= the other (Phase) operand"}.get(ev.get("form"), ""), rs)
         if ev.get("construct"):
             s = "while preparing operands for %s: Phase(%s, %s) -> %s" % (ev.get("stage"), val(ev["l"]), val(ev["r"]), rs)
         if "q" in ev:
